@@ -127,19 +127,32 @@ def impl_cache(case):
 
     gens = [None] * ngen
 
+    noparams = set(case.get("noparams", []))
+
+    def call(g, n, form):
+        if g in noparams:
+            return gens[g]() if form else gens[g](h.NoParams)
+        return gens[g](n=n) if form else gens[g](P(n=n))
+
     def mk(g):
-        def body(p: P) -> h.Module:
-            runs.append({"gen": g, "params": p.n})
-            b = table.get((g, p.n), {"nested": []})
+        def work(n):
+            runs.append({"gen": g, "params": n})
+            b = table.get((g, n), {"nested": []})
             rets = []
             for k, c in enumerate(b["nested"]):
-                # alternate the two call forms
-                rets.append(gens[c["gen"]](n=c["params"]) if k % 2 else gens[c["gen"]](P(n=c["params"])))
+                rets.append(call(c["gen"], c["params"], k % 2))  # alternate the two call forms
             if "k" in b:
                 return rets[b["k"]]
             m = h.Module()
             created.append(m)
             return m
+
+        if g in noparams:
+            def body(p: h.HasNoParams) -> h.Module:
+                return work(0)
+        else:
+            def body(p: P) -> h.Module:
+                return work(p.n)
 
         body.__name__ = f"g{g}"
         return h.generator(body)
@@ -149,12 +162,12 @@ def impl_cache(case):
     rets = []
     for k, c in enumerate(case["calls"]):
         try:
-            m = gens[c["gen"]](n=c["params"]) if k % 2 == 0 else gens[c["gen"]](P(n=c["params"]))
+            m = call(c["gen"], c["params"], k % 2 == 0)
             rets.append(next(i for i, x in enumerate(created) if x is m))
         except Exception as ex:  # noqa
             rets.append(None)
     names = [m.name for m in created]
-    genby = [{"gen": int(m._generated_by.gen.name[1:]), "params": m._generated_by.params.n} for m in created]
+    genby = [{"gen": int(m._generated_by.gen.name[1:]), "params": getattr(m._generated_by.params, "n", 0)} for m in created]
     # export everything together: no two modules under one name
     export = "ok"
     try:
@@ -188,7 +201,8 @@ def judge_cache(case, im, mo):
         yield ("pred", f"a generator body ran twice for one parameter value: {im['runs']}")
     if len(set(im["names"])) != len(im["names"]):
         yield ("pred", f"two generated modules share one name: {im['names']}", "names")
-    want_names = [f"g{c['gen']}(n={c['params']})" if c else None for c in mo["named_by"]]
+    nop = set(case.get("noparams", []))
+    want_names = [(f"g{c['gen']}" if c["gen"] in nop else f"g{c['gen']}(n={c['params']})") if c else None for c in mo["named_by"]]
     if im["names"] != want_names:
         yield ("pred", f"module names depend on more than generator and parameters: {im['names']} vs {want_names}", "renamed")
     if isinstance(im["export"], str):
@@ -215,7 +229,16 @@ def gen_prog(rng):
                 body["k"] = rng.randrange(len(nested))
             prog.append({"gen": g, "params": n, "body": body})
     calls = [{"gen": rng.randrange(ngen), "params": rng.randint(0, 2)} for _ in range(rng.randint(2, 8))]
-    return {"ngen": ngen, "prog": prog, "calls": calls}
+    noparams = [g for g in range(ngen) if rng.random() < 0.3]
+    for e in prog:
+        for c in e["body"]["nested"]:
+            if c["gen"] in noparams:
+                c["params"] = 0
+    for c in calls:
+        if c["gen"] in noparams:
+            c["params"] = 0
+    prog = [e for e in prog if not (e["gen"] in noparams and e["params"] != 0)]
+    return {"ngen": ngen, "prog": prog, "calls": calls, "noparams": noparams}
 
 
 # ------------------------------------------------------------------ shapes stream (hashed names)
@@ -251,6 +274,13 @@ def shapes_check(ctx):
                                                   [1 * h.prefix.m, 1000 * h.prefix.µ, 2 * h.prefix.m], [M1, M2]):
         vals.append(Outer(inner=Inner(a=a, s=s), color=col, pre=pre, mod=mod))
     mods = [G(v) for v in vals]
+    # the name is a function of generator and parameter value only: whichever equal spelling came first
+    for i, v in enumerate(vals):
+        rep.count("shapes", f"name{i}")
+        want = "G(" + _unique_name(v) + ")"
+        if mods[i].name != want:
+            rep.fail("pred", {"stream": "shapes", "value": str(v)},
+                     f"module name {mods[i].name} is not the name of this value ({want}): it depends on which equal value was called first", "renamed")
     for i in range(len(vals)):
         for j in range(i):
             rep.count("shapes", f"{i},{j}")
@@ -260,6 +290,33 @@ def shapes_check(ctx):
             if (mods[i] is mods[j]) != (mods[i].name == mods[j].name):
                 rep.fail("pred", {"stream": "shapes", "i": str(vals[i]), "j": str(vals[j])},
                          f"names {mods[i].name} / {mods[j].name}", "names")
+
+
+def collision_search(ctx):
+    """Failing-input search for the readable name: every pair of strings over a small adversarial alphabet
+    (up to length 4) as the two str fields of one param class; group by name; a name shared by two different
+    values is a failing input."""
+    import itertools as it
+
+    rep = ctx.rep
+    P = make_pc([["a", "str"], ["b", "str"]])
+    alpha = ['"', " ", "b", "=", "\\"]
+    strs = [""] + ["".join(t) for n in range(1, 5) for t in it.product(alpha[:4], repeat=n)] + ["".join(t) for n in range(1, 3) for t in it.product(alpha, repeat=n)]
+    strs = sorted(set(strs))
+    seen = {}
+    n = 0
+    for a in strs:
+        for b in strs:
+            name = _unique_name(P(a=a, b=b))
+            n += 1
+            if name in seen and seen[name] != (a, b):
+                rep.count("collision_search", n=n)
+                rep.fail("pred", {"stream": "collision_search", "a": [a, b], "b": list(seen[name])},
+                         f"two different parameter values share the name {name!r}", "names")
+                return
+            seen[name] = (a, b)
+    rep.count("collision_search", n=n)
+    rep.extra["collision_search_values"] = n
 
 
 def corpus_names():
@@ -294,6 +351,8 @@ def run(ctx):
             values.append(row)
         cases.append({"shape": shape, "values": values})
     SN.run(ctx, cases)
+    if not ctx.quick or ctx.rep.corr_disagreements or ctx.rep.proof_broken:
+        collision_search(ctx)  # thorough tier, and the failing-input search whenever the tie is broken
     SC.run(ctx, [gen_prog(rng) for _ in range(200 if ctx.quick else 4000)])
     shapes_check(ctx)
 
